@@ -434,7 +434,10 @@ class _InstallWrapper(IpcCommand):
                 try:
                     sstat = os.stat(source)
                 except OSError as e:
-                    raise IpcCommandError(f"cannot stat {source!r}: {e.strerror}")
+                    if not os.path.islink(source):
+                        raise IpcCommandError(f"cannot stat {source!r}: {e.strerror}")
+                    # dangling symlinks are installed as symlinks like any other
+                    sstat = os.lstat(source)
 
                 self._is_install_allowed(source, sstat, dest)
 
@@ -533,6 +536,11 @@ class _InstallWrapper(IpcCommand):
             symlinks = yield
             try:
                 for symlink, dest in self._prefix_targets(symlinks):
+                    # matching file installs, replace an existing dest
+                    try:
+                        os.unlink(dest)
+                    except FileNotFoundError:
+                        pass
                     os.symlink(os.readlink(symlink), dest)
             except OSError as e:
                 raise IpcCommandError(
